@@ -51,7 +51,7 @@ def table(dav):
         checks.append(dav(pid, TEXT.get(pid, TEXT["C01"]),
                           "TLA+ model checking (TLC) + trace validation of recorded executions against the spec"))
     checks.append(other("C04", "crash", "fault_enumeration",
-        "Every mutating file-system event of create/replace/no-op/delete/property-set on tree-git, bare-git and vdir stores (with varying prior contents, both metadata back ends) is a crash point: the store directory as it is just before the event, plus torn variants of the file being written, is re-opened by the real code and read completely (store API operations, the same operations arriving as HTTP requests, and operations preceded by earlier requests of the same process); TLC judges each image against CrashTrace.tla (old-or-new, opens, no reference to a missing object, acknowledged writes durable). The write protocols themselves are model checked exhaustively in StoreProto.tla, and the recorded gate sequences are validated against it. Death delivered as an exception (SIGINT) is injected at sampled executed lines of the store / git code and judged like a crash image; every operation is repeated with the temporary directory on another file system than the data.",
+        "Every mutating file-system event of create/replace/no-op/delete/property-set on tree-git, bare-git and vdir stores (with varying prior contents, both metadata back ends) is a crash point: the store directory as it is just before the event, plus torn variants of the file being written, is re-opened by the real code and read completely (store API operations, the same operations arriving as HTTP requests, and operations preceded by earlier requests of the same process); TLC judges each image against CrashTrace.tla (old-or-new, opens, no reference to a missing object, acknowledged writes durable). The write protocols themselves are model checked exhaustively in StoreProto.tla, and the recorded gate sequences are validated against it. Death delivered as an exception (SIGINT) is injected at sampled executed lines of the store / git code and judged like a crash image; every operation is repeated with the temporary directory on another file system than the data; stores are written and re-opened by processes under LC_ALL=C; every crash image is followed by the repeated request.",
         "TLA+ model checking of the write protocol (StoreProto) + exhaustive crash-point enumeration on the real code judged by a TLA+ trace spec",
         "File-system operations persist in program order (no fsync reordering); torn writes sampled empty/half; audit-hook events are the crash points (kills between two Python-level events inside one C call are not distinguished); git CLI fsck as auditor; harness/compat.py."))
     checks.append(other("C05", "race", "model_checking",
